@@ -27,6 +27,9 @@ import (
 //   L replayed server-final: the valid one of an EARLIER exchange of the same Auth object (abandoned
 //     by a restart in this session, or completed on a previous connection); G's value if there is none
 //   M server-final with an empty verifier ("v=")
+//   N server-first of a server that does NOT know the password: right nonce and salt, iteration count 0
+//   O server-final made without the password: ServerKey from an all-zero SaltedPassword, over the
+//     messages of the running exchange (after N: client-first, N, client-final-without-proof)
 
 type c15Case struct {
 	Mech     string `json:"mech"` // SCRAM-SHA-1 | SCRAM-SHA-256 | SCRAM-SHA-1-PLUS | SCRAM-SHA-256-PLUS
@@ -135,7 +138,8 @@ func c15Conn(c *c15Case, seq string, given smtp.Auth, shared *c15Shared) (*c15Re
 		var sfValid string          // the valid server-first sent for cf ("" if none yet)
 		var cfinOK bool             // a client-final that verifies was received for (cf, sfValid)
 		var authMessage string
-		verified := false // valid server-final delivered and acknowledged
+		var rogueFirst, rogueAM string // N: server-first of a server that does not know the password, and what followed
+		verified := false              // valid server-final delivered and acknowledged
 		classify := func(resp []byte) string {
 			s := string(resp)
 			switch {
@@ -161,6 +165,7 @@ func c15Conn(c *c15Case, seq string, given smtp.Auth, shared *c15Shared) (*c15Re
 					shared.prevSig = shared.lastValidSig // the abandoned exchange's signature can be replayed
 				}
 				cf, sfValid, cfinOK, authMessage, verified = ncf, "", false, "", false
+				rogueFirst, rogueAM = "", ""
 				return
 			}
 			switch sym {
@@ -181,11 +186,19 @@ func c15Conn(c *c15Case, seq string, given smtp.Auth, shared *c15Shared) (*c15Re
 				authMessage = cf.Bare + "," + sfValid + "," + string(resp)[:i]
 				cfinOK = true
 				shared.lastValidSig = srvSig(pass, authMessage)
+			case 'N':
+				// an iteration count of 0 is not a positive number, but answering it is not yet a breach:
+				// what matters is what the client accepts as proof afterwards
+				if kind == "client-final" && cf != nil {
+					if i := strings.LastIndex(string(resp), ",p="); i > 0 {
+						rogueAM = cf.Bare + "," + rogueFirst + "," + string(resp)[:i]
+					}
+				}
 			case 'B', 'C', 'D':
 				if kind == "client-final" {
 					out.violation = core.V("continued-after-invalid-server-first", "the client sent a client-final message in response to an invalid server-first (%c): %q", sym, resp)
 				}
-			case 'E', 'F', 'G', 'L', 'M':
+			case 'E', 'F', 'G', 'L', 'M', 'O':
 				if kind == "empty" {
 					// the client acknowledged this server-final message
 					if sym == 'E' && cfinOK {
@@ -215,7 +228,27 @@ func c15Conn(c *c15Case, seq string, given smtp.Auth, shared *c15Shared) (*c15Re
 					challenge = sfValid
 				}
 			case 'B':
-				challenge = refsasl.ServerFirst(p, "ForeignNonceThatIsNotTheClients")
+				// longer than any combined nonce of the running exchange
+				challenge = refsasl.ServerFirst(p, "ForeignNonceThatIsNotTheClientsButAtLeastAsLongAsAnyCombinedNonceOfTheExchange0123456789")
+			case 'N':
+				// a server that does not know the password: right nonce, right salt, iteration count 0
+				n := "madeupnonce"
+				if cf != nil {
+					n = cf.Nonce
+				}
+				rogueFirst = "r=" + n + p.NonceSuffix + ",s=" + base64.StdEncoding.EncodeToString(p.Salt) + ",i=0"
+				challenge = rogueFirst
+			case 'O':
+				// server-final made WITHOUT the password: ServerKey derived from an all-zero SaltedPassword,
+				// over the messages of the running exchange
+				am := rogueAM
+				if am == "" {
+					am = authMessage
+				}
+				zero := make([]byte, h().Size())
+				m := hmac.New(h, zero)
+				m.Write([]byte("Server Key"))
+				challenge = "v=" + mac(m.Sum(nil), am)
 			case 'C':
 				n := "x"
 				if cf != nil && len(cf.Nonce) > 4 {
@@ -388,7 +421,7 @@ func c15Run(c c15Case) []*core.Violation {
 
 func c15Describe() {
 	rec := core.Rec("C15")
-	rec.Rule = "bounded-exhaustive: every server message sequence of length <= 5 (PLUS variants <= 4) in quick and <= 7 (PLUS <= 6) in thorough over the alphabet {A valid server-first, B server-first with foreign nonce, C with truncated nonce, D malformed server-first, E valid server-final, F server-final made with another key, G server-final over empty state, H empty challenge, I junk, J 235, K 535, L replayed valid server-final of an earlier exchange of the same Auth object, M server-final with an empty verifier}, for SCRAM-SHA-1, SCRAM-SHA-256 and both PLUS variants (over a real TLS 1.2 handshake on an in-memory connection), driven through smtp.Client.Auth, also with an Auth object that completed a genuine exchange on an earlier connection (reuse, sequences <= 4 / <= 6), and after another Auth value of the same user completed an exchange with a different password against the same salt and iteration count; depth-first with pruning once the client has aborted or the exchange ended. " +
+	rec.Rule = "bounded-exhaustive: every server message sequence of length <= 5 (PLUS variants <= 4) in quick and <= 7 (PLUS <= 6) in thorough over the alphabet {A valid server-first, B server-first with a foreign nonce (longer than the combined nonce), C with truncated nonce, D malformed server-first, E valid server-final, F server-final made with another key, G server-final over empty state, H empty challenge, I junk, J 235, K 535, L replayed valid server-final of an earlier exchange of the same Auth object, M server-final with an empty verifier, N server-first with the right nonce and salt but iteration count 0 (a server that does not know the password), O server-final made from an all-zero SaltedPassword over the running exchange}, for SCRAM-SHA-1, SCRAM-SHA-256 and both PLUS variants (over a real TLS 1.2 handshake on an in-memory connection), driven through smtp.Client.Auth, also with an Auth object that completed a genuine exchange on an earlier connection (reuse, sequences <= 4 / <= 6), and after another Auth value of the same user completed an exchange with a different password against the same salt and iteration count; depth-first with pruning once the client has aborted or the exchange ended. " +
 		"Oracle (reference tracker of the exchange): Auth returns nil only if, since the last client-first, the valid server-first was answered by a verifying client-final and the valid server-final was acknowledged before the 235; the client sends client-final only after a valid server-first and acknowledges a v= message only when it is the valid one; a complete valid exchange succeeds. " +
 		"Non-trivial: the sequence contains a message that is valid for some exchange (A, E, F, G, L or M). Distinct by (mechanism, sequence)."
 	rec.Assumptions = []string{"PBKDF2 iteration count 4 to keep the enumeration cheap", "known finding scram-bare-235: a 235 is accepted whatever preceded it; counted and excluded by signature"}
@@ -406,7 +439,7 @@ func TestC15Enum(t *testing.T) {
 	}
 	c15Describe()
 	p := core.Prop[c15Case]{ID: "C15", Test: "TestC15", Run: c15Run}
-	alphabet := "ABCDEFGHIJKLM"
+	alphabet := "ABCDEFGHIJKLMNO"
 	type job struct {
 		mech  string
 		max   int
